@@ -1,7 +1,7 @@
 CONSTANTS
   Sym = {65, 84, 71}
-  Starts = {<<65, 84, 71>>, <<71, 84, 71>>}
-  Stops = {<<84, 65, 71>>, <<84, 71, 65>>, <<84, 65, 65>>}
+  Starts <- StartsATG_GTG
+  Stops <- StopsStd
   MaxLen = 10
   MinLens = {0, 3, 4, 6}
 SPECIFICATION Spec
